@@ -180,6 +180,15 @@ def payload_ok(rule, p):
             return (int(m.group(1)), int(m.group(2))) >= (1, 4)
         if p == "" or not any(ch.isdigit() for ch in p):
             return False
+        # release numbers with a pre-release / build suffix (2.2.0-rc.2, 2.3.0-beta, 1.5.1+build7 - what nodes running a
+        # beta of the library present): decided by the number when it is clearly above or below 1.4, undecided at 1.4.x
+        m2 = re.match(r"^([0-9]+)\.([0-9]+)\.([0-9]+)[-+][0-9A-Za-z][0-9A-Za-z.-]*$", p)
+        if m2 and p.isascii():
+            mm = (int(m2.group(1)), int(m2.group(2)))
+            if mm > (1, 4):
+                return True
+            if mm < (1, 4):
+                return False
         return None
     if rule == "CONFIG":
         if p in ("M", "I"):
@@ -283,7 +292,8 @@ def corpus(rule):
     if rule == "VERSION":
         return [("1.4", True), ("1.5", True), ("2.0", True), ("2.2.0", True), ("2.3.2", True), ("1.4.1", True),
                 ("", False), ("abc", False), ("1.3", False), ("1.0", False), ("0.9", False), ("1.3.9", False),
-                ("2", None), ("2.0-beta", None), ("v2.0", None)]
+                ("2", None), ("2.0-beta", None), ("v2.0", None), ("2.2.0-rc.2", True), ("2.3.0-beta", True), ("1.5.1+build7", True),
+                ("1.3.0-beta", False), ("1.4.0-beta", None)]
     if rule == "CONFIG":
         return [("M", True), ("I", True), ("0", True), ("1", True), ("254", True), ("255", False),
                 ("-1", False), ("X", False), ("MI", False), ("", None)]
